@@ -116,6 +116,17 @@ pub fn enumerate_structures(thorough: bool) -> Vec<StructSpec> {
             for hyb in [false, true] {
                 out.push(StructSpec { dims: vec![DimSpec { name: "W".into(), ordered: false, attrs: (0..40).map(|i| format!("w{i}")).collect(), hybrid: vec![hyb; 40], script: (0..40).collect() }], variant: Variant::Plain });
             }
+            // more than 128 attributes: identifiers whose LEB128 encoding takes two bytes, next to
+            // a small hierarchy; and odd names: a 300-byte name, names that are prefixes of each
+            // other, an attribute named like its dimension, non-ASCII names
+            let big = DimSpec { name: "W".into(), ordered: false, attrs: (0..131).map(|i| format!("w{i}")).collect(), hybrid: (0..131).map(|i| i % 64 == 0).collect(), script: (0..131).collect() };
+            let hier = DimSpec { name: "Q".into(), ordered: true, attrs: vec!["m".into(), "z".into()], hybrid: vec![false, true], script: vec![1, 0] };
+            out.push(StructSpec { dims: vec![big, hier.clone()], variant: Variant::Plain });
+            let long = "L".repeat(300);
+            let odd = DimSpec { name: "DD".into(), ordered: false, attrs: vec!["DD".into(), "D".into(), long, "Dé ü".into()], hybrid: vec![false, true, false, false], script: vec![0, 1, 2, 3] };
+            let odd2 = DimSpec { name: "D".into(), ordered: true, attrs: vec!["D".into(), "DD".into(), "DDD".into()], hybrid: vec![false, false, true], script: vec![2, 0, 1] };
+            out.push(StructSpec { dims: vec![odd.clone(), odd2.clone()], variant: Variant::Plain });
+            out.push(StructSpec { dims: vec![odd, odd2], variant: Variant::RoundTrip });
             continue;
         }
         // hint assignments
@@ -345,6 +356,19 @@ pub struct CellStats {
 
 fn policies(spec: &StructSpec, thorough: bool) -> Vec<Vec<Clause>> {
     let p1 = clauses(spec);
+    if spec.dims.len() == 2 && spec.dims[0].attrs.len() > 100 {
+        let mut out: Vec<Vec<Clause>> = vec![vec![vec![None, None]]];
+        for a in [0usize, 64, 126, 127, 128, 129, 130] {
+            out.push(vec![vec![Some(a), None]]);
+            out.push(vec![vec![Some(a), Some(0)]]);
+            out.push(vec![vec![Some(a), Some(1)]]);
+        }
+        out.push(vec![vec![None, Some(0)]]);
+        out.push(vec![vec![None, Some(1)]]);
+        out.push(vec![vec![Some(127), Some(1)], vec![Some(128), Some(0)]]);
+        out.push(vec![vec![Some(128), None], vec![Some(129), None], vec![Some(0), Some(1)]]);
+        return out;
+    }
     if spec.dims.len() == 1 && spec.dims[0].attrs.len() > 3 {
         // wide anarchy: a few single attributes and wide disjunctions
         let n = spec.dims[0].attrs.len();
